@@ -54,6 +54,9 @@ type Interp struct {
 	ex    *Explorer
 
 	globals    map[*ssa.Global]*Obj
+	watch      map[*Obj]string // frame watch (watch.go): marked objects -> label
+	watchHit   map[*Obj]string
+	watchOff   int
 	inited     map[*ssa.Package]bool
 	persistent []*Obj
 	saved      map[*Obj]Value
@@ -113,6 +116,7 @@ func (in *Interp) resetPath() {
 	in.depth = 0
 	in.nstores = 0
 	in.storeLog = nil
+	in.watch, in.watchHit = nil, nil
 	in.replacements = map[string]FuncV{}
 	in.curPanicFr = nil
 	in.inStub = 0
@@ -884,6 +888,7 @@ func (in *Interp) mapUpdate(m, key, val Value) {
 	}
 	md := c.obj.val.(*MapData)
 	idx := in.mapFind(md, key)
+	in.watchNote(c.obj)
 	nd := &MapData{keys: append([]Value{}, md.keys...), vals: append([]Value{}, md.vals...)}
 	if idx >= 0 {
 		nd.vals[idx] = val
